@@ -11,7 +11,8 @@ THEOREMS = ['MindsVerif.Props.C01.' + n for n in (
     'C01_partial_union', 'C01_partial_union_wf', 'C01_union_wf', 'C01_regress_union',
     'C01_partial_expr_sqlite', 'C01_partial_expr_mysql', 'C01_partial_expr_mindsdb',
     'C01_regress_parameter', 'C01_regress_variable', 'C01_partial_compose', 'C01_partial_select_expr',
-    'C01_partial_select_expr_sqlite', 'C01_partial_select_expr_mysql', 'C01_partial_select_expr_mindsdb')]
+    'C01_partial_select_expr_sqlite', 'C01_partial_select_expr_mysql', 'C01_partial_select_expr_mindsdb',
+    'C01_partial_tokens', 'C01_partial_tokens_compose')]
 ASSUME = [
     'C01_full is proved per layer only: L2 expressions (operator-precedence machine, tied to the LALR tables by C03.phi3b) and '
     'L3 SELECT skeleton / set-operation chains (hand model Model/SelectSkel.lean of the clause rules, ensure_select_keyword_order and '
@@ -338,6 +339,14 @@ def part_specs(d):
         ('set', ['SET ', ['a = 1', "a = 's'", 'a = 1, b = 2', 'NAMES utf8', "NAMES utf8 COLLATE utf8_bin", 'autocommit', 'GLOBAL a = 1', 'SESSION a = 1', '@a = 1',
                  '@@a = 1', 'CHARACTER SET utf8', 'CHARSET DEFAULT', 'TRANSACTION READ ONLY', 'SESSION TRANSACTION ISOLATION LEVEL READ COMMITTED',
                  'GLOBAL TRANSACTION ISOLATION LEVEL SERIALIZABLE, READ WRITE', 'a = b', 'a = NULL', 'a = TRUE']]),
+        # shapes of the findings that are still open (kept so that the probes stay alive and repairs are noticed)
+        ('odd-alias', ['SELECT a FROM (SELECT 1) ', ['s', 's.t', 's.*', 'AS s', 'AS `s t`'], ['', ' WHERE a = 1']]),
+        ('odd-alias2', ['SELECT a ', ['"."', '"x.y"', 'b.c', 'AS "x y"', '"x"'], ['', ' FROM t']]),
+        ('quoted-func', [['SELECT ', 'DROP VIEW ', 'SELECT 1 + '], ['"a b"()', '`f g`(1)', '"f"(a, b)', '`select`(1)']]),
+        ('paren-select-clause', [['(SELECT a)', '(SELECT a FROM t)', '(SELECT a FROM t WHERE a = 1)', '((SELECT a FROM t))'],
+                                 [' OFFSET 1', ' LIMIT 1', ' LIMIT 1 OFFSET 2', ' ORDER BY a', ' WHERE a = 1', '']]),
+        ('describe-odd', ['DESCRIBE ', ['a.b c', 'a.1 b', 'a.b.c', '`a b`']]),
+        ('create-table-pk', ['CREATE TABLE t ', ['(PRIMARY KEY (a))', '(a int, PRIMARY KEY (a, b))', '(a int, b int PRIMARY KEY)']]),
         ('misc', [['USE db', 'USE `a b`', 'START TRANSACTION', 'BEGIN', 'COMMIT', 'ROLLBACK', 'EXPLAIN t', 'EXPLAIN SELECT 1', 'DESCRIBE t', 'DESCRIBE db.t',
                    'ALTER TABLE t DISABLE KEYS', 'ALTER TABLE t ENABLE KEYS', 'SELECT 1; ', 'SELECT DATABASE()', 'SELECT CURRENT_USER', 'SELECT @@version', 'SELECT LAST']]),
     ]
@@ -351,7 +360,7 @@ def part_specs(d):
             ('evaluate', ['EVALUATE m FROM (select 1)', ['', ' USING a = 1', " USING a = 's'"]]),
             ('create-db', ['CREATE ', ['', 'OR REPLACE '], ['DATABASE', 'PROJECT'], ' ', ['', 'IF NOT EXISTS '], 'd',
                            ['', " WITH ENGINE = 'e'", " ENGINE 'e'", " USING ENGINE = 'e'", " WITH ENGINE 'e'"],
-                           ['', ', PARAMETERS = {"a": 1}', ' PARAMETERS {"a": "b", "c": [1, 2]}', ' PARAMETERS {}']]),
+                           ['', ', PARAMETERS = {"a": 1}', ' PARAMETERS {"a": "b", "c": [1, 2]}', ' PARAMETERS {}', ' PARAMETERS {"ü": "é"}']]),
             ('create-view', ['CREATE VIEW ', ['', 'IF NOT EXISTS '], ['v', 'p.v'], ['', ' FROM i'], [' AS (select 1)', ' (select 1)', ' AS (select a from t where a = 1)']]),
             ('create-job', ['CREATE JOB ', ['', 'IF NOT EXISTS '], ['j', 'p.j'], [' (select 1)', ' AS (select 1; select 2)'], ['', " START '2020-01-01'", ' START now'],
                             ['', " END '2021-01-01'"], ['', ' EVERY hour', ' EVERY 2 days'], ['', ' IF (select 1)']]),
@@ -364,10 +373,12 @@ def part_specs(d):
             ('drop-cmd', ['DROP ', ['MODEL', 'PREDICTOR', 'JOB', 'TRIGGER', 'AGENT', 'SKILL', 'CHATBOT', 'KNOWLEDGE_BASE', 'ML_ENGINE', 'DATASOURCE', 'VIEW', 'PROJECT'], ' ',
                           ['', 'IF EXISTS '], ['x', 'p.x']]),
             ('describe', ['DESCRIBE ', ['', 'MODEL ', 'AGENT ', 'JOB ', 'SKILL '], ['m', 'p.m', 'p.m.attr']]),
-            ('select-using', ['SELECT a FROM t', ['', ' WHERE a = 1'], ['', ' LIMIT 1'], [' USING x = 1', " USING x = 's', y = 2", ' USING x = [1, 2]']]),
+            ('select-using', ['SELECT a FROM t', ['', ' WHERE a = 1'], ['', ' LIMIT 1'], [' USING x = 1', " USING x = 's', y = 2", ' USING x = [1, 2]', " USING x = 'ü'"]]),
             ('native', ['SELECT * FROM i (', ['select 1', 'select a, b from t where a = 1', 'show tables'], ')', ['', ' AS n', ' n'], ['', ' WHERE a = 1']]),
             ('update-from', ['UPDATE t SET a = s.a', ['', ', b = s.b'], ' FROM (SELECT 1) AS s', ['', ' WHERE t.a = s.a']]),
             ('update-on', ['UPDATE t ON a', ['', ', b'], ' FROM (select 1)']),
+            ('predict-odd', ['CREATE MODEL m PREDICT ', ['f(DISTINCT a)', 'db.f(a)', '((SELECT a UNION SELECT b))', '(SELECT a)', 'db.*(DISTINCT a)', '"a b"()']]),
+            ('kb-source', ['CREATE KNOWLEDGE_BASE kb FROM ', ['(SELECT a)', '((SELECT a UNION SELECT b))', '(SELECT a UNION SELECT b)'], ' USING model = m']),
             ('latest', ['SELECT * FROM t WHERE ', ['a > LATEST', 'a = LATEST AND b = 1']]),
         ]
     return S
@@ -606,9 +617,9 @@ def skeleton_stream(chk, cl, dist, quick):
         if impl == 'syntax':
             # LALR glue (G1) outside the skeleton: tolerated only for non-canonical clause orders
             syn += 1
-            # known hole in (G1): OFFSET is an `id` alternative in the mysql / mindsdb grammars, so `<target|table> OFFSET n`
-            # reads OFFSET as an alias (the printed form of `(SELECT a FROM t) OFFSET 1`; listed known finding of Select)
-            alias_hole = d != 'sqlite' and any(c[0] == 'X' and (i2 == 0 or cs[i2 - 1][0] == 'F') for i2, c in enumerate(cs))
+            # known hole in (G1), mysql only (mindsdb repaired in 8fa9192 / 7ca02af): OFFSET is an `id` alternative, so
+            # `<target|table> OFFSET n` reads OFFSET as an alias (known finding KF-C01-10)
+            alias_hole = d == 'mysql' and any(c[0] == 'X' and (i2 == 0 or cs[i2 - 1][0] == 'F') for i2, c in enumerate(cs))
             if canonical and o.startswith('ok') and not alias_hole:
                 diverged += 1
                 first = first or dict(dialect=d, text=text, model=o, impl='syntax error on a canonical clause order')
